@@ -218,7 +218,7 @@ func c09Check(c *Ctx, m map[string]interface{}, prefix string, noattr, dot bool)
 
 func c09Run(c *Ctx) {
 	mustBeDefault(c)
-	c.S.Rule = "cases = (Map, attribute prefix, no-attributes, dot-notation): every Map template with <= N nodes over keys {a, y<prefix>z, <prefix>x, #text} (enumeration + resolution clauses) and over {a, \"\", a.b, <prefix>x} (enumeration clause with arbitrary keys incl. the empty key) and over {a, a], ]k, k:} (keys with a closing bracket, default prefix), leaves incl. null, plus Maps decoded from the U-XML documents and a scale family (lists of 11, 101, 1025 scalars / maps); prefixes {-, @, \"\", attr_} (dot notation set explicitly for two of them and reached through the toggling form for the other two); explicit false and omitted no_attr argument alternate; each under ascending and descending map order; plus every sequence of <= 3 (notation switch in {bare toggle, explicit on, explicit off}, LeafNodes/LeafPaths/LeafValues on one of 4 Maps with lists of different lengths) steps in one process. Results are retained and re-checked after later calls. Oracle: reference leaf list (multiset of path=value), LeafPaths/LeafValues are projections, every leaf path resolves through ValuesForPath to exactly its value. non-trivial = at least one leaf."
+	c.S.Rule = "cases = (Map, attribute prefix, no-attributes, dot-notation): every Map template with <= N nodes over keys {a, y<prefix>z, <prefix>x, #text} (enumeration + resolution clauses) and over {a, \"\", a.b, <prefix>x} (enumeration clause with arbitrary keys incl. the empty key) and over {a, a], ' ', k:} (keys with a closing bracket, a blank-only key, default prefix), leaves incl. null, plus Maps decoded from the U-XML documents and a scale family (lists of 11, 101, 1025 scalars / maps); prefixes {-, @, \"\", attr_} (dot notation set explicitly for two of them and reached through the toggling form for the other two); explicit false and omitted no_attr argument alternate; each under ascending and descending map order; plus every sequence of <= 3 (notation switch in {bare toggle, explicit on, explicit off}, LeafNodes/LeafPaths/LeafValues on one of 4 Maps with lists of different lengths) steps in one process. Results are retained and re-checked after later calls. Oracle: reference leaf list (multiset of path=value), LeafPaths/LeafValues are projections, every leaf path resolves through ValuesForPath to exactly its value. non-trivial = at least one leaf."
 	c.S.Assumptions = []string{"reference leaf enumeration in harness/c09.go", "resolution clause restricted as the property states (keys free of . [ *, no list-in-list, bracket notation)"}
 	n := 5
 	if c.Thorough {
@@ -239,7 +239,7 @@ func c09Run(c *Ctx) {
 					if prefix != "-" {
 						continue
 					}
-					keys = []string{"a", "a]", "]k", "k:"}
+					keys = []string{"a", "a]", " ", "k:"}
 				}
 				g := newGen(GenP{Keys: keys, MaxList: 3, MaxKeys: 3, EmptyList: true, EmptyMap: true, ListInList: fam == 1,
 					Leaves: []interface{}{"v", nullLeaf{}}})
